@@ -13,6 +13,12 @@ else
 fi
 ok=1
 for d in "$@"; do
+  case "$d" in CHECK:*)
+    c="${d#CHECK:}"
+    out=$(cd "/repo/$c" && cargo check --offline 2>&1)
+    if echo "$out" | grep -qE "^error"; then echo "CHECK-FAILED in $c"; echo "$out" | grep -E "^error" -A6 | head -20; ok=0; else echo "check ok in $c"; fi
+    continue;;
+  esac
   for t in "$d" "$d/tests"; do
     [ -f "/repo/$t/Cargo.toml" ] || continue
     out=$(cd "/repo/$t" && cargo test --offline ${FEATURES:+--features $FEATURES} 2>&1)
